@@ -1,51 +1,45 @@
 (* Props/C17.v — Sheet rename, move and duplicate preserve values.
    Statements only; every proof is [exact <lemma>] into Syntax/RenameProofs.v.
 
-   The code (commit 1fc9128): rename_sheet_by_index re-parses every stored formula, applies
-   rename_sheet_in_node ([Rename.rename_node]), prints it back in the stored form and re-parses
-   everything; move_sheet reorders the sheet vector and re-resolves every reference by name;
+   The code (commit 059fa54): rename_sheet_by_index re-parses every stored formula (in English, since
+   9f60d5e), applies rename_sheet_in_node ([Rename.rename_node]), prints it back in the stored form and
+   re-parses everything; move_sheet reorders the sheet vector and re-resolves every reference by name;
    duplicate_sheet clones the sheet and applies the same node pass with the copy's name.
-   The node pass renames EVERY WrongRangeKind that carries a sheet name (finding F12), so the
-   full-strength statement [C17_rename_only_target] is refuted and proved for the complement. *)
+   The two defects the first version of this file refuted are repaired: the WrongRangeKind arm of the
+   node pass is empty (F12, 059fa54) and the re-parse no longer uses the user's locale (F65, 9f60d5e);
+   their witnesses are kept as regression examples. *)
 From IronCalc Require Import Base.Prelude Codec.RefA1 Syntax.Token Syntax.Ast Syntax.Printer Syntax.Parser
   Syntax.Shape Syntax.Rename Syntax.RenameProofs Codec.SheetName.
 
 (* the property of the node pass at full strength: nothing changes but the sheet-name field of the
-   references / ranges that resolve to the renamed sheet and carry a name; that field becomes the new name *)
-Definition C17_rename_only_target : Prop := forall i n e, only_target i n e (rename_node i n e).
+   references / ranges that resolve to the renamed sheet and carry a name; that field becomes the new
+   name — every tree, by induction on the AST (through argument lists) *)
+Theorem C17_rename_only_target : forall i n e, only_target i n e (rename_node i n e).
+Proof. exact rename_only_target. Qed.
+Print Assumptions C17_rename_only_target.
 
-Theorem C17_rename_only_target_refuted : ~ C17_rename_only_target.
-Proof. exact rename_only_target_refuted. Qed.
-Print Assumptions C17_rename_only_target_refuted.
+(* regression (former F12 witness): =SUM(Ghost!A1:A2) in D1 of Sheet1; renaming Sheet2 (index 1) to
+   "Renamed" leaves the tree alone and the stored text still parses to the range on the nonexistent sheet *)
+Example C17_ghost_range_regression :
+  ltac:(let t := type of rename_ghost_range_regression in exact t).
+Proof. exact rename_ghost_range_regression. Qed.
 
-(* the witness: =SUM(Ghost!A1:A2) in D1 of Sheet1; renaming Sheet2 (index 1) to "Renamed" rewrites
-   it, and the new stored text then parses to a valid range on the renamed sheet *)
-Theorem C17_refuted_ghost_range :
-  image m_stored nm_w env_w w_ghost = true /\
-  ~ only_target 1 t_renamed w_ghost (rename_node 1 t_renamed w_ghost) /\
-  parse m_stored nm_w (env_renamed 1 t_renamed env_w) (print m_stored nm_w (rename_node 1 t_renamed w_ghost))
-    = Some (ENamedFun None [115;117;109] [ERange (Some t_renamed) (Some 1) pA1 pA2], []).
-Proof. exact rename_ghost_range_refuted. Qed.
-Print Assumptions C17_refuted_ghost_range.
-
-(* the complement: trees without a named range on a nonexistent sheet — every tree, by induction *)
-Theorem C17_partial :
-  forall i n e, no_ghost_range e = true -> only_target i n e (rename_node i n e).
-Proof. exact rename_only_target_partial. Qed.
-Print Assumptions C17_partial.
+(* regression (former F65 witness): a two-argument call is rewritten whatever the user's locale is *)
+Example C17_stored_formula_regression :
+  ltac:(let t := type of rename_stored_regression in exact t).
+Proof. exact rename_stored_regression. Qed.
 
 (* the renamed tree, printed in the stored form, parses back to itself in the workbook with the sheet
    renamed — for every tree the parser returns (C09's theorem, so: none of the three associative pairs,
    user function names in lower case), every sheet list without duplicates, every new name that no
-   other sheet carries, provided the formula has no named range on a nonexistent sheet (F12) and no
-   reference to a nonexistent sheet that is spelled like the new name (such a reference legitimately
-   starts to resolve: references are by name) *)
+   other sheet carries, provided the formula has no reference or range on a nonexistent sheet that is
+   spelled like the new name (such a reference legitimately starts to resolve: references are by name) *)
 Theorem C17_rename_roundtrip :
   forall nm env (k : nat) (n : text) (e : ast),
   (k < length (pe_sheets env))%nat -> NoDup (pe_sheets env) -> In (pe_ctx_sheet env) (pe_sheets env) ->
   (forall t x, nth_error (pe_sheets env) t = Some x -> t <> k -> x <> n) ->
   image m_stored nm env e = true -> no_bad false e = true -> lower_stable nm e = true ->
-  no_ghost_range e = true -> no_ghost_named n e = true ->
+  no_ghost_named n e = true ->
   let e' := rename_node (Z.of_nat k) n e in
   image m_stored nm (env_renamed k n env) e' = true /\
   parse m_stored nm (env_renamed k n env) (print m_stored nm e') = Some (e', []).
@@ -63,13 +57,6 @@ Print Assumptions C17_rename_name_survives.
 Example C17_rename_roundtrip_nonvacuous :
   ltac:(let t := type of rename_roundtrip_nonvacuous in exact t).
 Proof. exact rename_roundtrip_nonvacuous. Qed.
-
-(* rename_sheet_by_index parses the stored (English) formulas with the user's locale: with a ';'
-   locale a two-argument call is a parse error, its text is kept, the reference dangles (F65) *)
-Theorem C17_refuted_user_locale :
-  ltac:(let t := type of rename_stored_user_locale_refuted in exact t).
-Proof. exact rename_stored_user_locale_refuted. Qed.
-Print Assumptions C17_refuted_user_locale.
 
 (* move_sheet: the sheets are permuted, so a name denotes the same sheet afterwards (names unique);
    the call cannot fail or abort for indices in range, and the moved sheet lands at the target index *)
@@ -99,7 +86,7 @@ Theorem C17_duplicate_roundtrip :
   pe_ctx_sheet env = nth src (pe_sheets env) [] ->
   ~ In copy (pe_sheets env) -> pe_defnames env = [] ->
   image m_stored nm env e = true -> no_bad false e = true -> lower_stable nm e = true ->
-  no_ghost_range e = true -> no_ghost_named copy e = true ->
+  no_ghost_named copy e = true ->
   parse m_stored nm (env_dup src copy env) (print m_stored nm (dup_node (Z.of_nat src) copy e))
   = Some (reindex (dup_index (Z.of_nat src)) (dup_node (Z.of_nat src) copy e), []).
 Proof. exact duplicate_roundtrip. Qed.
@@ -109,8 +96,8 @@ Example C17_duplicate_roundtrip_nonvacuous :
   ltac:(let t := type of duplicate_roundtrip_nonvacuous in exact t).
 Proof. exact duplicate_roundtrip_nonvacuous. Qed.
 
-(* the retargeting pass of duplicate_sheet is the rename pass: same frame property, same exception *)
+(* the retargeting pass of duplicate_sheet is the rename pass: same frame property *)
 Theorem C17_duplicate_only_target :
-  forall src copy e, no_ghost_range e = true -> only_target src copy e (dup_node src copy e).
-Proof. exact rename_only_target_partial. Qed.
+  forall src copy e, only_target src copy e (dup_node src copy e).
+Proof. exact rename_only_target. Qed.
 Print Assumptions C17_duplicate_only_target.
